@@ -180,7 +180,8 @@ Section CtlProofs.
       2:{ injection H as <- <-. apply (ctl_inv_update st t s); try assumption; [reflexivity|].
           unfold ctl_sess_ok in *. cbn. now rewrite H3, Ep. }
       destruct (nh_get_recommand_ok D OK (st_an st) (nh_analysis_key (ss_vmsg s) vf cm cf) cf vf H4) as [a' [r [E [Ha' _]]]].
-      rewrite E in H. injection H as <- <-. apply (ctl_inv_update st t s); try assumption; [reflexivity|].
+      rewrite E in H. destruct (nh_read_timeouts (nd_timing D) (rc_cbeh r) (rc_vbeh r)) as [[vrt crt]|]; [|discriminate H].
+      injection H as <- <-. apply (ctl_inv_update st t s); try assumption; [reflexivity|].
       unfold ctl_sess_ok in *. cbn. now rewrite H3, Ep.
     - (* SendV *)
       destruct (ctl_find t (st_sess st)) as [s|] eqn:Ef; [|discriminate].
@@ -223,8 +224,9 @@ Section CtlProofs.
     intros [_ [_ [_ Ha]]] Ef Ep Ec. cbn. rewrite Ef, Ep, Ec. unfold nh_analysis.
     destruct (nh_classify (cm_mapped cm) _) as [cf|ce]; [|eauto].
     destruct (nh_classify (vm_mapped (ss_vmsg s)) _) as [vf|ve]; [|eauto].
-    destruct (nh_get_recommand_ok D OK (st_an st) (nh_analysis_key (ss_vmsg s) vf cm cf) cf vf Ha) as [a' [r [E _]]].
-    rewrite E. eauto.
+    destruct (nh_get_recommand_ok D OK (st_an st) (nh_analysis_key (ss_vmsg s) vf cm cf) cf vf Ha) as [a' [r [E [_ Hr]]]].
+    rewrite E. destruct Hr as [_ [_ [_ [Htm _]]]]. unfold nh_timing_pair in Htm.
+    destruct (nh_read_timeouts (nd_timing D) (rc_cbeh r) (rc_vbeh r)) as [[vrt crt]|]; [eauto|discriminate Htm].
   Qed.
 
   (* ---- quiescence ---- *)
